@@ -10,8 +10,8 @@ import json, os, re, shutil, subprocess, sys, time, hashlib, tempfile
 VERIF = os.path.abspath(os.path.join(os.path.dirname(__file__), "..", ".."))
 REPO = os.environ.get("REPO", "/repo")
 SPEC = os.path.join(VERIF, "spec")
-OUT = os.path.join(VERIF, "out")
-EVID = os.path.join(VERIF, "evidence")
+OUT = os.environ.get("VERIF_OUT", os.path.join(VERIF, "out"))      # overridden when a mutant is tried (try_seed.sh)
+EVID = os.environ.get("VERIF_EVID", os.path.join(VERIF, "evidence"))
 BUILD = os.environ.get("VERIF_BUILD", os.path.join(VERIF, "build"))
 TLA_JAR = "/opt/veriftools/tla/tla2tools.jar"
 TLA_CP = TLA_JAR + ":/opt/veriftools/tla/CommunityModules-deps.jar"
